@@ -10,13 +10,15 @@ import gen, pstdump, scrape, vlib
 OUTS = [("c", False), ("c", True), ("cpp", False), ("cpp", True), ("rust", False), ("java", False)]
 
 
-def compile_all(idlc, src, outdir, extra=()):
+def compile_all(idlc, src, outdir, extra=(), keep=False):
+    """keep: generate over whatever an earlier run left in the output directories"""
     res = {}
     for lang, skel in OUTS:
         tag = lang + ("_skel" if skel else "")
         od = os.path.join(outdir, tag)
-        shutil.rmtree(od, ignore_errors=True)
-        os.makedirs(od)
+        if not keep:
+            shutil.rmtree(od, ignore_errors=True)
+        os.makedirs(od, exist_ok=True)
         o = od if lang in ("rust", "java") else os.path.join(od, "out.h")
         r = scrape.idlc_run(idlc, src, o, lang, skel, extra=extra)
         files = {}
@@ -167,6 +169,19 @@ def run(ctx):
             _, o2 = build("doc_removed", gen.render_trivia(h, r, "plain"))
             out["variants"].append(("doc_changed", None, diff_outputs(ref, o1, "nocomments")))
             out["variants"].append(("doc_removed", None, diff_outputs(ref, o2, "nocomments")))
+            # the same edit made in place: the documented revision is generated first, the revision without
+            # documentation (and without the marking) is generated over it - what comes out is what a fresh
+            # directory gets
+            mk0 = os.path.join(d, "MARK_inplace")
+            open(mk0, "w").write("Copyright (c) someone\nAll rights reserved.\nA third line to make the first revision longer.\n")
+            vd = os.path.join(d, "inplace")
+            os.makedirs(vd, exist_ok=True)
+            p0 = os.path.join(vd, "unit.idl")
+            open(p0, "w", newline="").write(gen.render_trivia(g, r, "plain"))
+            compile_all(ctx["idlc"], p0, os.path.join(vd, "out"), ["--marking", mk0])
+            open(p0, "w", newline="").write(gen.render_trivia(h, r, "plain"))
+            o5 = compile_all(ctx["idlc"], p0, os.path.join(vd, "out"), [], keep=True)
+            out["variants"].append(("doc_removed_in_place", None, diff_outputs(o2, o5)))
             # documentation then an ordinary comment: the documentation must still be emitted
             txt = gen.render_trivia(g, r, "plain").replace("   */\n", "   */\n// ordinary\n", 1)
             _, o3 = build("doc_then_comment", txt)
